@@ -389,6 +389,51 @@ class Assembly:
         col.outcome("dense", d)
 
 
+def run_shared_head(asm):
+    """History: ONE accumulator (the combination of the first n_chunks-2 chunk files) is extended twice, by the last two chunks
+    in either order.  Both results are complete matrices equal to the single-chunk one; the accumulator itself is not touched."""
+    col = asm.col
+    nc = asm.n_chunks
+    if nc < 3:
+        return
+    for descending in (False, True):
+        _shared_head_one(asm, descending)
+
+
+def _shared_head_one(asm, descending):
+    col = asm.col
+    nc = asm.n_chunks
+    ids = list(range(nc))[::-1] if descending else list(range(nc))  # descending: the head starts from the last (often empty) chunk file
+    load = lambda pos: DC.ChunkedDistanceMatrix.load(asm.files[ids[pos]])  # noqa: E731
+    case = dict(asm.base, seq=ids, shared_head=True)
+    col.evaluations += 1
+    col.transitions += 2 * nc
+    try:
+        head = load(0)
+        for ci in range(1, nc - 2):
+            head = head.combine(load(ci))
+        k0 = int(head.current_index)
+        snap = (np.asarray(head.row_indices[:k0]).tolist(), np.asarray(head.col_indices[:k0]).tolist(), np.asarray(head.values[:k0]).tolist())
+        results = []
+        for order in ((nc - 2, nc - 1), (nc - 1, nc - 2)):
+            results.append((order, head.combine(load(order[0])).combine(load(order[1])).to_dense()))
+            k1 = int(head.current_index)
+            now = (np.asarray(head.row_indices[:k1]).tolist(), np.asarray(head.col_indices[:k1]).tolist(), np.asarray(head.values[:k1]).tolist())
+            if now != snap:
+                col.violation(f"{PROP}|assemble|operand-changed", f"combining changed its left operand (chunk files {ids[:nc - 2]} of {nc}, groups={asm.groups})", case)
+                return
+    except Exception as exc:  # noqa: BLE001
+        col.violation(f"{PROP}|assemble|combine-raised",
+                      f"one accumulator (chunk files {ids[:nc - 2]} of {nc}) extended by chunk files {ids[nc - 2:]} in both orders, groups={asm.groups}, {asm.metric_name}: {short_exc(exc)}", case)
+        return
+    for order, dense in results:
+        v = judge_dense(dense, asm.n, asm.ref)
+        if v:
+            col.violation(f"{PROP}|assemble|{v[0]}", f"accumulator of chunk files {ids[:nc - 2]} extended by {[ids[o] for o in order]}: {v[1]}", case)
+            return
+    col.nontriv("assemble-shared-head", tuple(asm.groups), asm.metric_name, nc, descending)
+
+
 def sequence_body(n_chunks, repeats):
     """Choice-tree body: leaves are exactly the distinct sequences that contain each chunk once plus a
     multiset of at most `repeats` extra chunks, in every order."""
@@ -454,6 +499,7 @@ def run_assemble(col, n, metric_name, pattern_name, groups, n_chunks, repeats, f
         col.count("assembly_sequences", n_seq)
         if first not in (None, 0):
             return
+        run_shared_head(asm)
         # every proper non-empty subset of the chunk files, in index order
         for r in range(1, n_chunks):
             for sub in itertools.combinations(range(n_chunks), r):
@@ -644,6 +690,7 @@ def run_cli(col, max_chunks):
                 alpha=0.25 * seed - 0.3, precision=10.0,
             )
 
+        REFS = {}
         for cfg, SEEDS in (("distinct", [1, 2, 3, 4]), ("zero-at-(2,0)", [1, 2, 1, 3])):
             seeds = SEEDS
             thetas = [theta(s) for s in seeds]
@@ -678,6 +725,7 @@ def run_cli(col, max_chunks):
             if cfg != "distinct" and a[2, 0] != 0.0:
                 col.count("cli_menu_without_exact_zero")
             ref = (a, b)
+            REFS[cfg[:4]] = ref
 
             # the same two files under names whose given order is not their lexicographic order (chain 9 before chain 10)
             renamed = [os.path.join(tmp, f"chain{cfg[:4]}_9.h5"), os.path.join(tmp, f"chain{cfg[:4]}_10.h5")]
@@ -744,6 +792,34 @@ def run_cli(col, max_chunks):
                                 continue
                             if len(covered) < 6:
                                 col.violation(f"{PROP}|densify|incomplete-accepted", f"CLI chunk files {list(sub)} of {n_chunks} were densified although pairs are missing", dict(base, seq=list(sub)))
+        # the --output path of one invocation is reused by the next one (another set of posterior samples, same count and
+        # chunking): the file must hold what the LAST invocation computed
+        reuse = os.path.join(tmp, "reused_output.h5")
+        for cfg_name in ("dist", "zero", "dist"):
+            one_fn = os.path.join(tmp, f"thetas_{cfg_name}_all.h5")
+            for ci in (0, 1):
+                sys.argv = ["calculate_distance_matrix", "--distance-metric", "MSEDistance", "--n-chunks", "2", "--chunk-index", str(ci), "--data", data_fn,
+                            "--thetas", one_fn, "--output", reuse]
+                case = {"kind": "cli", "config": "reused-output", "thetas": cfg_name, "n_chunks": 2, "seq": [ci]}
+                col.evaluations += 1
+                col.transitions += 1
+                try:
+                    CLI.main()
+                except BaseException as exc:  # noqa: BLE001
+                    col.violation(f"{PROP}|cli|raised", f"calculate_distance_matrix into an existing output file raised {short_exc(exc)}", case)
+                    continue
+                finally:
+                    sys.argv = argv0
+                got = DC.ChunkedDistanceMatrix.load(reuse)
+                k = int(got.current_index)
+                want_pairs = sorted(DC.get_lower_triangular_indices_chunk(4, ci, 2))
+                have = sorted(zip(np.asarray(got.row_indices[:k]).tolist(), np.asarray(got.col_indices[:k]).tolist()))
+                refa = REFS[cfg_name][0]
+                if have != [tuple(p_) for p_ in want_pairs]:
+                    col.violation(f"{PROP}|cli|reused-output|pairs", f"output path reused: after computing chunk {ci} of 2 for {cfg_name} the file holds pairs {have}, expected {want_pairs}", case)
+                elif any(not close(float(v), float(refa[i, j])) for i, j, v in zip(got.row_indices[:k], got.col_indices[:k], got.values[:k])):
+                    col.violation(f"{PROP}|cli|reused-output|values", f"output path reused: after computing chunk {ci} of 2 for the {cfg_name} posterior samples the file still holds other values", case)
+                col.nontriv("cli", "reused-output", cfg_name, ci)
         col.sample({"cli": {"n_thetas": 4, "configs": ["distinct", "zero-at-(2,0)"], "theta_files": ["one", "two", "two named chain_9, chain_10 (given order != sorted order)"],
                             "reference_lower_triangle_last_config": [a[i, j] for i in range(4) for j in range(i)]}})
     finally:
